@@ -95,6 +95,12 @@ func (x *Exec) callStatic(fr *Frame, st *State, ins ssa.Instruction, callee *ssa
 	if u, ok := x.ld.ByFn[callee]; ok && !u.C.Inline {
 		return x.callContract(fr, st, ins, u, callee, args, resT)
 	}
+	if fr.lpkg != nil && fr.lpkg.Extern != nil {
+		if u, ok := fr.lpkg.Extern[callee]; ok {
+			x.assumed["assumed contract on dependency: "+u.Key+" (calls from package "+fr.lpkg.Name+")"] = true
+			return x.callContract(fr, st, ins, u, callee, args, resT)
+		}
+	}
 	if callee.Blocks != nil && inModule(callee) && x.canInline(fr, callee) {
 		return x.inline(fr, st, ins, callee, args, bindings, resT)
 	}
@@ -646,6 +652,10 @@ func (x *Exec) special(fr *Frame, st *State, ins ssa.Instruction, callee *ssa.Fu
 				ref := x.lockRef(args[1])
 				h := x.heapGet(st, "g:"+nm, tb.Array(tb.BV(64), tb.BV(64)))
 				return Val{T: resT, L: []*Term{tb.Select(h, ref)}}, true
+			}
+		case "arrID":
+			if isSpecBody(callee) {
+				return Val{T: resT, L: []*Term{args[0].L[0]}}, true
 			}
 		case "sameArr":
 			if isSpecBody(callee) {
